@@ -300,12 +300,15 @@ ORDER_PRE = [
     {"op": "reg_infix", "name": "sop", "prec": 20, "type": "SETTER", "assoc": "RIGHT", "beh": {"id": 1003, "log": True, "ret": "last"}},
     {"op": "reg_prefix", "name": "pre", "beh": {"id": 1004, "log": True, "ret": "last"}},
     {"op": "reg_postfix", "name": "pst", "beh": {"id": 1005, "log": True, "ret": "last"}},
+    {"op": "reg_fn", "name": "sh", "beh": {"id": 1006, "log": True, "ret": "last"}},
 ]
 ORDER_FNS = {
     "t": {"id": 1, "log": True, "ret": "last"},
     "r1": {"id": 11, "log": True, "ret": "const", "v": ["n", "7", 0]},
     "r2": {"id": 12, "log": True, "ret": "const", "v": ["b", True]},
     "r3": {"id": 13, "log": True, "ret": "const", "v": ["n", "25", 1]},
+    # `sh` is also registered globally (id 1006): the context binding must shadow it, whatever happens
+    "sh": {"id": 14, "log": True, "ret": "last"},
 }
 ORDER_VARS = {"a": ["n", "2", 0], "b": ["n", "35", 1]}
 
@@ -324,7 +327,7 @@ def order_model():
     B = ref.Beh
     return dict(
         table=order_table(),
-        gfuncs={"gt": B(1000, True, "last")},
+        gfuncs={"gt": B(1000, True, "last"), "sh": B(1006, True, "last")},
         handlers={("infix", "lop"): B(1001, True, "last"), ("infix", "rop"): B(1002, True, "last"), ("infix", "sop"): B(1003, True, "last"),
                   ("prefix", "pre"): B(1004, True, "last"), ("postfix", "pst"): B(1005, True, "last")},
     )
@@ -344,7 +347,8 @@ class OrderGen:
         return ["num", str(self.i), 0]
 
     def call(self, *args):
-        f = "gt" if self.rnd.random() < 0.15 else "t"
+        x = self.rnd.random()
+        f = "gt" if x < 0.15 else ("sh" if x < 0.3 else "t")
         return ["fn", f, [self.uid()] + list(args)]
 
     def leaf(self):
